@@ -132,3 +132,37 @@ Theorem C08_option_hypotheses_checkable : forall c, KV.Proofs.OptionsCheck.hyps_
   wf_netlist c /\ comb_acyclic c /\ KV.Proofs.EndToEnd.gates_known c /\ KV.Proofs.ReuseStrip.forks_ok c.
 Proof. exact KV.Proofs.OptionsCheck.hyps_all_b_sound. Qed.
 Print Assumptions C08_option_hypotheses_checkable.
+
+(** Source tie (T) for the allocator: Gen/HeapSrc.v is regenerated from the text of class Heap (sim.py) on every run by
+    translate/gen_heap.py (statement-by-statement, every KeyError / IndexError / negative difference an explicit [None]).
+    The translated __init__ / alloc / free ARE the hand model on every state satisfying the invariant, and every history of
+    well-formed use runs on the translated source to a state satisfying the invariant -- so all allocator theorems above
+    (C08_alloc_fresh, C08_free_live, C08_live_disjoint, C08_high_water, C08_free_commute) speak about the code as written. *)
+From KV Require Import Model.HeapSrcLib Gen.HeapSrc.
+From KV Require Proofs.HeapSrcProofs.
+Theorem C08_heap_source_is_model :
+  hinit_src = hinit /\
+  (forall h size, HInv h -> alloc_src h size = Some (alloc h size)) /\
+  (forall h loc, HInv h -> live h loc -> free_src h loc = free h loc) /\
+  (forall ops h, HInv h -> well_used ops h ->
+     exists h' tr, hrun_src alloc_src free_src ops h [] = Some (h', tr) /\ HInv h').
+Proof. exact KV.Proofs.HeapSrcProofs.heap_source_is_model. Qed.
+
+(* the exact preconditions, without the invariant: released entries are chunk starts; the freed chunk is not yet released *)
+Theorem C08_heap_source_exact : forall h,
+  (forall l, In l (released h) -> KV.Model.Heap.lookup l (chunks h) <> None) ->
+  (forall size, alloc_src h size = Some (alloc h size)) /\
+  (forall loc, ~ In loc (released h) -> free_src h loc = free h loc).
+Proof. exact KV.Proofs.HeapSrcProofs.heap_source_exact. Qed.
+(* ... and they are needed: outside them the code raises KeyError where the hand model continues *)
+Theorem C08_heap_source_precondition_needed :
+  (let h := {| chunks := [(0, 4)]; released := [0]; cur := 4; mx := 4 |} in
+   (forall l, In l (released h) -> KV.Model.Heap.lookup l (chunks h) <> None) /\ free_src h 0 = None /\ free h 0 <> None) /\
+  alloc_src {| chunks := []; released := [0]; cur := 0; mx := 0 |} 1 = None.
+Proof. exact (conj KV.Proofs.HeapSrcProofs.free_src_needs_live KV.Proofs.HeapSrcProofs.alloc_src_needs_rel_keys). Qed.
+Theorem C08_heap_source_nonvacuous :
+  let ops := [HAlloc 4; HAlloc 8; HFree 0; HAlloc 2; HFree 4] in
+  HInv hinit /\ well_used ops hinit /\
+  hrun_src alloc_src free_src ops hinit [] = Some ({| chunks := [(0, 2)]; released := []; cur := 2; mx := 12 |}, [0; 4; 0]).
+Proof. exact KV.Proofs.HeapSrcProofs.heap_source_example. Qed.
+Print Assumptions C08_heap_source_is_model.
